@@ -75,8 +75,11 @@ Proof.
     rewrite be_uint_len_ok in HOk, HErr by (rewrite skipn_length; lia).
     set (l := unbe (firstn 2 (skipn off b))) in *.
     assert (Hl : (l < 2 ^ 16)%N) by (apply (unbe_firstn_lt (skipn off b) 2), wf_bytes_skipn, WF).
-    stepsn. fold l. rewrite (wrap_s64 (2 + Z.of_N l)) by lia. rewrite !wrap_s64 by lia.
-    replace (Z.of_nat off + (2 + Z.of_N l)) with (Z.of_nat (off + 2 + N.to_nat l)) by lia.
+    stepsn. fold l. unwrap.
+    match goal with
+    | |- context [VInt (Z.of_nat off + ?t)] =>
+        replace (Z.of_nat off + t) with (Z.of_nat (off + 2 + N.to_nat l)) by lia
+    end.
     assert (E3 : (Z.of_nat (length b) <? Z.of_nat (off + 2 + N.to_nat l)) = (length b <? off + 2 + N.to_nat l)%nat).
     { destruct (Z.ltb_spec (Z.of_nat (length b)) (Z.of_nat (off + 2 + N.to_nat l))),
         (Nat.ltb_spec (length b) (off + 2 + N.to_nat l)); try reflexivity; lia. }
